@@ -478,6 +478,69 @@ def plotly_case(ctx, index, rng: random.Random):
              sample={"kind": kind, "opts": desc["opts"], "members": members})
 
 
+def ascii_map_case(ctx, index, rng: random.Random):
+    """The ASCII heat map: one character cell per bin, axis 0 running to the right and axis 1 upwards (as the frame's own labels say),
+    each cell as bright as its bin. The colours are observed as the arguments of xtermcolor.colorize (they reach a terminal only)."""
+    from physt.histogram_nd import Histogram2D
+    from physt.plotting import ascii as pascii
+
+    rec = ctx.rec
+    rec.mon("C20.artists")
+    if not hasattr(pascii, "map"):
+        rec.skip("C20.artists", "ascii_map_unavailable")
+        return
+    nx, ny = rng.randint(1, 5), rng.randint(1, 5)
+    if nx == ny:
+        ny += 1
+    f = np.array([[rng.randint(0, 9) for _ in range(ny)] for _ in range(nx)])
+    if f.max() == 0:
+        f[0, -1] = 5
+    if len(set(f.ravel().tolist())) < 2:
+        f[0, 0] = f[0, 0] + 1 if f[0, 0] < 9 else 0
+    h = Histogram2D([np.arange(nx + 1, dtype=float), 10.0 + 2 * np.arange(ny + 1, dtype=float)], f)
+    cmap = rng.choice(["Greys", "Greys_r", None])
+    calls = []
+    real = pascii.xtermcolor.colorize
+
+    def seen(ch, *a, **k):
+        calls.append(k.get("rgb", a[0] if a else None))
+        return "#"
+
+    buf = io.StringIO()
+    with attach.quiet():
+        before = snap.snapshot(h)
+    pascii.xtermcolor.colorize = seen
+    try:
+        with contextlib.redirect_stdout(buf), warnings.catch_warnings():
+            warnings.simplefilter("ignore")
+            h.plot("map", backend="ascii", **({} if cmap is None else {"cmap": cmap}))
+    except Exception as e:
+        rec.fail(monitor="C20.artists", op="ascii.map", symptom=f"plotting a valid histogram raised {type(e).__name__}", diff=["raised"], detail={"error": str(e)[:200]})
+        return
+    finally:
+        pascii.xtermcolor.colorize = real
+    lines = buf.getvalue().splitlines()
+    rows = [ln for ln in lines if ln.startswith("|")]
+    widths = {ln[1:].index("|") for ln in rows if "|" in ln[1:]}
+    level = (f / f.max() * 255).astype(int)
+    if cmap == "Greys":
+        level = 255 - level
+    cells = [c // (65536 + 256 + 1) for c in calls[: nx * ny]]
+    # reading order: top row first (highest bin of axis 1), within a row axis 0 from left to right
+    want = [int(level[i, j]) for j in range(ny - 1, -1, -1) for i in range(nx)]
+    if len(rows) != ny or widths != {nx}:
+        rec.fail(monitor="C20.artists", op="ascii.map", symptom="the ASCII map does not draw one cell per bin with axis 0 running to the right and axis 1 upwards (frame size)", diff=["stdout"],
+                 detail={"shape": [nx, ny], "rows": len(rows), "row_widths": sorted(widths), "lines": lines[:8]})
+    elif cells != want:
+        rec.fail(monitor="C20.artists", op="ascii.map", symptom="the cells of the ASCII map do not carry the brightness of the bins at their positions", diff=["stdout"],
+                 detail={"shape": [nx, ny], "cells": cells[:12], "expected": want[:12], "cmap": cmap})
+    with attach.quiet():
+        rec.mon("C20.unchanged")
+        if snap.diff(before, snap.snapshot(h)):
+            rec.fail(monitor="C20.unchanged", op="ascii.map", symptom="plotting modified the histogram", diff=["histogram"], detail={})
+    rec.case(["ascii_map", f.tolist(), cmap], True, cls=f"ascii/map/{cmap}")
+
+
 def ascii_case(ctx, index, rng: random.Random):
     rec = ctx.rec
     rec.mon("C20.artists")
@@ -521,7 +584,7 @@ def refusal_case(ctx, index, rng: random.Random):
 
     rec = ctx.rec
     rec.mon("C20.artists")
-    kind = rng.choice(["1d_as_map", "2d_as_bar", "unknown_backend", "unknown_kind", "2d_as_hbar", "1d_as_image", "plotly_2d_as_bar", "plotly_1d_as_map", "image_gapped"])
+    kind = rng.choice(["1d_as_map", "2d_as_bar", "unknown_backend", "unknown_kind", "2d_as_hbar", "1d_as_image", "plotly_2d_as_bar", "plotly_1d_as_map", "image_gapped", "image_irregular_tiny"])
     h1, _ = make_1d(rng)
     h2 = make_2d(rng)
     raised = False
@@ -568,6 +631,14 @@ def refusal_case(ctx, index, rng: random.Random):
 
                 hg = physt.h2(np.array([0.5, 1.5, 5.5, 5.6]), np.array([0.5, 0.5, 1.5, 0.5]), [np.array([[0.0, 1.0], [1.0, 2.0], [5.0, 6.0]]), np.array([0.0, 1.0, 2.0])])
                 hg.plot("image", backend="matplotlib")
+            elif kind == "image_irregular_tiny":
+                # irregular bins however small their scale (nanoseconds written in seconds): equal pixels cannot sit at the bins' positions
+                from physt.histogram_nd import Histogram2D
+
+                unit = rng.choice([1e-9, 1e-12, 1e-10, 1.0, 1e3])
+                ex = np.array([0.0, 1.0, 3.0, 6.0]) * unit if rng.random() < 0.7 else np.array([0.0, 2.0, 3.0, 5.0, 6.0]) * unit
+                hi_ = Histogram2D([ex, np.array([0.0, 1.0, 2.0])], np.arange(2 * (len(ex) - 1)).reshape(len(ex) - 1, 2) + 1)
+                (hi_ if rng.random() < 0.7 else hi_.T).plot("image", backend="matplotlib")
             elif kind == "plotly_2d_as_bar":
                 h2.plot("bar", backend="plotly")
             else:
@@ -913,5 +984,6 @@ def run(ctx):
     ctx.run_cases(ctx.scale(8, 40), default_backend_case, salt="default")
     ctx.run_cases(ctx.scale(120, 800), plotly_case, salt="plotly")
     ctx.run_cases(ctx.scale(60, 300), ascii_case, salt="ascii")
+    ctx.run_cases(ctx.scale(40, 200), ascii_map_case, salt="asciimap")
     ctx.run_cases(ctx.scale(30, 120), refusal_case, salt="refusal")
     ctx.run_cases(ctx.scale(150, 1000), ticks_case, salt="ticks")
